@@ -91,6 +91,36 @@ class W(Rec):
     per_tag = True
 
 
+class NS:
+    """a namespace: component classes may be referenced as ``vkplugins.comps:NS.C2`` (dotted attribute path)"""
+
+    class C2(C):
+        pass
+
+
+# a module-level name that a wrong attribute walk would pick up instead of NS.C2
+class C2(Rec):
+    family = "WRONG"
+
+
+class Inner(Rec):
+    family = "Inner"
+    per_tag = True
+
+
+class Dyn(Rec):
+    """starts another component tree from inside its own start() (a dynamically loaded sub-tree)"""
+
+    family = "Dyn"
+    per_tag = True
+
+    async def start(self) -> None:
+        from asphalt.core import start_component
+
+        await super().start()
+        await start_component(Inner, {"tag": "in" + self.kw.get("tag", "")}, timeout=None)
+
+
 class K(Rec):
     family = "K"
 
